@@ -15,6 +15,10 @@ from cobald.daemon.plugins import yaml_tag
 from cobald.daemon.runners.service import service
 from cobald.interfaces import Controller, Pool, PoolDecorator
 
+class Injected(Exception):
+    """constructor failure injected by the check"""
+
+
 LOG = []  # successful constructions, in order
 STATE = {"attempts": 0, "fail_at": None}
 
@@ -23,17 +27,22 @@ class Injected(Exception):
     """constructor failure injected by the check"""
 
 
-def reset(fail_at=None):
+FAIL_TYPES = {"Injected": Injected, "KeyError": KeyError, "ValueError": ValueError, "AttributeError": AttributeError,
+              "LookupError": LookupError, "RuntimeError": RuntimeError, "OSError": OSError, "IndexError": IndexError}
+
+
+def reset(fail_at=None, fail_type="Injected"):
     del LOG[:]
     STATE["attempts"] = 0
     STATE["fail_at"] = fail_at
+    STATE["fail_type"] = fail_type
     del EXTRA[:]
 
 
 def _construct(obj, args, kwargs):
     STATE["attempts"] += 1
     if STATE["fail_at"] is not None and STATE["attempts"] == STATE["fail_at"]:
-        raise Injected("constructor of %s failed on purpose" % type(obj).__name__)
+        raise FAIL_TYPES[STATE.get("fail_type", "Injected")]("constructor of %s failed on purpose" % type(obj).__name__)
     obj.args = args
     obj.kwargs = kwargs
     LOG.append(obj)
@@ -80,6 +89,11 @@ class Snapshot:
 
     def __repr__(self):
         return "<%s %r %r>" % (self.tag, self.final_args, self.final_kwargs)
+
+
+def snap_type(*args, **kwargs):
+    """A helper object configured as a nested legacy `__type__` mapping inside an element's arguments."""
+    return Snapshot("VSnapType", args, kwargs)
 
 
 def snap_lazy(*args, **kwargs):
